@@ -236,3 +236,45 @@ class IdentifierPostprocess(Contract):
 
     def frame_ok(self, I, inp, obj, name):
         return obj is inp["self"] and name == "parent"
+
+
+@register
+class SelectorPostprocess(Contract):
+    """ConditionSelector.postprocess: the selector becomes the OR / AND over exactly the detections its pattern matches NOW - the names
+    the rule's detections have at this call (pipelines and direct edits add detections between two parses of the same rule), in order"""
+    id = "C02.ConditionSelector.postprocess"
+    target = f"{COND}:ConditionSelector.postprocess"
+    props = ("C02", "C15", "C19")
+    cases = tuple((q, hist) for q in ("1", "all") for hist in (False, True))
+    assumed = ["resolve_referenced_detections by its contract (reads the current detection names); ConditionItem.postprocess of the built node is abstract"]
+
+    def setup(self, E):
+        def s_resolve(I, so, a, k):
+            CI = I.E.index.lookup(f"{COND}:ConditionIdentifier")
+            return [SObj(CI, {"args": [n], "identifier": n}, lazy=True) for n in a[0].fields["detections"] if n.startswith("sel")]
+        E.summaries[f"{COND}:ConditionSelector.resolve_referenced_detections"] = s_resolve
+        E.summaries[f"{COND}:ConditionItem.postprocess"] = lambda I, so, a, k: so
+
+    def args(self, I, case):
+        q, hist = case
+        idx = I.E.index
+        dets = SObj(idx.lookup("sigma.rule.detection:SigmaDetections"), {"detections": {"sel1": SObj("Det", {}), "other": SObj("Det", {})}, "condition": ["1 of sel*"], "source": None}, lazy=True)
+        me = SObj(idx.lookup(f"{COND}:ConditionSelector"), {"args": [q, "sel*"], "pattern": "sel*", "cond_class": ClassRef(idx.lookup(f"{COND}:ConditionOR" if q == "1" else f"{COND}:ConditionAND")), "source": None, "parent": None}, lazy=True)
+        return {"self": me, "args": [dets], "dets": dets, "case": case}
+
+    def before(self, I, inp):
+        if inp["case"][1]:      # history: the same condition was parsed before (validator, earlier conversion), then a detection was added
+            I.call_function(I.E.index.lookup(self.target), inp["self"], [inp["dets"]], {})
+            inp["dets"].fields["detections"]["sel_new"] = SObj("Det", {})
+
+    def post(self, I, inp, r):
+        q, hist = inp["case"]
+        want = ["sel1"] + (["sel_new"] if hist else [])
+        ok = isinstance(r, SObj) and getattr(r.cls, "name", "") == ("ConditionOR" if q == "1" else "ConditionAND") and isinstance(r.fields.get("args"), list)
+        I.ctx.require(ok, "an OR ('1 of' / 'any of') respectively AND ('all of') node is built")
+        if ok:
+            got = [I.force(x.fields.get("identifier")) if isinstance(x, SObj) else None for x in r.fields["args"]]
+            I.ctx.require(got == want, f"over exactly the detections matching now, in order: {want} (got {got})")
+
+    def frame_ok(self, I, inp, obj, name):
+        return True
